@@ -1732,6 +1732,11 @@ class Container:
                                                  'U' if substance.is_enzyme() else config.moles_storage_unit,
                                                  quantity_unit)
                                for substance, value in self.contents.items())
+        if quantity_unit == 'L':
+            # the volume the container reports, and that the capacity is compared with: recomputed from the stored
+            # amounts it comes out a few 1e-9 uL off for a protein (one stored digit of IgG is 1.5e-8 uL), and what is
+            # "missing" then overshoots a capacity the target fills exactly
+            current_quantity = Unit.convert_from_storage(self.volume, 'L')
 
         required_quantity = quantity - current_quantity
         # a target below what the container already holds cannot be reached by adding solvent; a shortfall that is
